@@ -259,6 +259,11 @@ func Lock(site string, x any) {
 		l.writer = t
 		s.mu.Unlock()
 		l.nativeLock()
+		if s.HeldYield {
+			// a scheduling point INSIDE the critical section: other tasks run while this one holds
+			// the lock (TryLock fails for them, Lock makes them wait)
+			s.park(g, &Op{Kind: "held", Site: l.site})
+		}
 		return
 	}
 	l.pendW[t] = true
@@ -334,6 +339,9 @@ func RLock(site string, x any) {
 		l.nread++
 		s.mu.Unlock()
 		l.nativeRLock()
+		if s.HeldYield {
+			s.park(g, &Op{Kind: "rheld", Site: l.site})
+		}
 		return
 	}
 	l.waitR[t] = true
@@ -388,4 +396,69 @@ func (s *Sched) Held(x any) bool {
 	defer s.mu.Unlock()
 	l := s.locks[r.id]
 	return l != nil && (l.wheld || l.nread > 0)
+}
+
+// TryLock replaces X.TryLock(): it never parks and succeeds exactly when the emulated lock is free.
+func TryLock(site string, x any) bool {
+	r := resolve(x)
+	s, g := active()
+	if s == nil {
+		ok := false
+		if r.mu != nil {
+			ok = r.mu.TryLock()
+		} else {
+			ok = r.rwmu.TryLock()
+		}
+		if s2 := cur.Load(); ok && s2 != nil {
+			l := s2.lockFor(r, site)
+			s2.mu.Lock()
+			l.wheld = true
+			l.writer = nil
+			s2.mu.Unlock()
+		}
+		return ok
+	}
+	l := s.lockFor(r, site)
+	t := s.taskFor(g, "trylock:"+site)
+	s.mu.Lock()
+	if !l.wheld && l.nread == 0 {
+		l.wheld = true
+		l.writer = t
+		s.mu.Unlock()
+		l.nativeLock()
+		return true
+	}
+	s.mu.Unlock()
+	return false
+}
+
+// TryRLock replaces X.TryRLock().
+func TryRLock(site string, x any) bool {
+	r := resolve(x)
+	if r.rwmu == nil {
+		panic("verifhook: TryRLock on a non-RW mutex at " + site)
+	}
+	s, g := active()
+	if s == nil {
+		ok := r.rwmu.TryRLock()
+		if s2 := cur.Load(); ok && s2 != nil {
+			l := s2.lockFor(r, site)
+			s2.mu.Lock()
+			l.nread++
+			s2.mu.Unlock()
+		}
+		return ok
+	}
+	l := s.lockFor(r, site)
+	t := s.taskFor(g, "tryrlock:"+site)
+	s.mu.Lock()
+	if !l.wheld && len(l.pendW) == 0 {
+		l.readers[t]++
+		l.nread++
+		s.mu.Unlock()
+		l.nativeRLock()
+		return true
+	}
+	s.mu.Unlock()
+	return false
 }
